@@ -288,6 +288,101 @@ func runC12(c *eng.Ctx) {
 	})
 
 	// ---- 3. completion --------------------------------------------------------------------------------------------------------------
+	// ---- a leaf finds every shard it hosts: the shard set is published sorted, because the look-up binary-searches it ------------------
+	// (above 20 shards GetShard uses sort.Search; the node creates its shards in the iteration order of the assignment map, so
+	// "new shard goes last" is not an order. A shard GetShard misses is silently skipped by the leaf's plan: a partial answer
+	// that depends on which node hosts how many shards)
+	c.Rule("ORDER", "tsdb.shardSet{entries sorted before they are published}", func() {
+		g := c.Fn("tsdb.shardSet.GetShard")
+		searches := p.Sites(g, eng.CallTo("sort.Search", "sort.Find", "slices.BinarySearchFunc"))
+		c.Check(true, "lookup-form", nil, g, fmt.Sprintf("GetShard uses %d binary search(es)", len(searches)), "")
+		if len(searches) == 0 {
+			return // a purely linear look-up needs no order
+		}
+		n := 0
+		for _, f := range p.FuncsWithPrefix("tsdb.shardSet.") {
+			for i, s := range p.Sites(f, func(p *eng.Prog, in ssa.Instruction) bool {
+				fa, m, _ := eng.AtomicOp(in)
+				return fa != nil && m == "Store" && eng.FieldKeyOfAddr(fa) == "tsdb.shardSet.value"
+			}) {
+				cl := s.Instr.(*ssa.Call)
+				val := cl.Common().Args[len(cl.Common().Args)-1]
+				if mi, ok := val.(*ssa.MakeInterface); ok {
+					val = mi.X
+				}
+				n++
+				sorts := p.Sites(f, func(p *eng.Prog, in ssa.Instruction) bool {
+					c2, ok := in.(*ssa.Call)
+					if !ok || !eng.CallTo("sort.Sort", "sort.Stable", "sort.Slice", "sort.SliceStable", "slices.SortFunc")(p, in) || len(c2.Common().Args) == 0 {
+						return false
+					}
+					a := c2.Common().Args[0]
+					if mi, ok := a.(*ssa.MakeInterface); ok {
+						a = mi.X
+					}
+					return eng.SameValue(a, val) || a == val
+				})
+				// an empty / single-entry set needs no sort: a make of constant length <= 1 or a nil value
+				trivial := false
+				if mk, ok := eng.Unwrap(val).(*ssa.MakeSlice); ok {
+					if k, isC := eng.ConstInt(mk.Len); isC && k <= 1 {
+						trivial = true
+					}
+				}
+				if eng.IsNilConst(val) {
+					trivial = true
+				}
+				okS := trivial || len(sorts) > 0 && eng.DominatedBy(f, s.Instr, sorts, nil)
+				c.Check(okS, fmt.Sprintf("sorted-before-store@%s[%d]", p.FuncKey(f), i), s.Instr, f, "the entries are sorted by shard id before the set is published (GetShard binary-searches them)", "no sort of the stored value dominates the store")
+			}
+		}
+		c.Check(n >= 1, "publishes", nil, nil, "the shard set is published through value.Store", "")
+	})
+
+	// ---- top-N: the comparison is decided by the first order-by item on which the two rows differ ---------------------------------------
+	// (with `a > b -> true` but no `a < b -> false`, Less(i,j) and Less(j,i) are both true when two items disagree: the heap keeps
+	// whichever groups the push order - the iteration order of a map - favours)
+	c.Rule("GUARD", "aggregation.topNHeap.Less{next item only on a tie}", func() {
+		f := c.Fn("aggregation.topNHeap.Less")
+		facts := p.MustFacts(f)
+		n := 0
+		for _, h := range f.Blocks {
+			for _, pr := range h.Preds {
+				if !h.Dominates(pr) || len(pr.Instrs) == 0 {
+					continue
+				}
+				// pr -> h is a back edge: the comparison moves on to the next order-by item
+				n++
+				fs := facts.EdgeFactsFor(pr, h)
+				for k, v := range facts.At(pr.Instrs[len(pr.Instrs)-1]) {
+					fs[k] = v
+				}
+				isZero := func(_ string, v ssa.Value) bool {
+					k, ok := v.(*ssa.Const)
+					return ok && k.Value != nil && (k.Value.String() == "0" || k.Value.ExactString() == "0")
+				}
+				anyV := func(string, ssa.Value) bool { return true }
+				notGreater := facts.Find(fs, "le", anyV, isZero) // ret <= 0
+				notLess := facts.Find(fs, "le", isZero, anyV)    // 0 <= ret
+				tie := false
+				for _, a := range notGreater {
+					for _, b := range notLess {
+						if a.X == b.Y {
+							tie = true
+						}
+					}
+				}
+				for _, e := range facts.Find(fs, "eq", anyV, isZero) {
+					_ = e
+					tie = true
+				}
+				c.Check(tie, fmt.Sprintf("moves-on-only-when-equal[%d]", n), pr.Instrs[len(pr.Instrs)-1], f,
+					"the comparison goes on to the next order-by item only when the two rows are equal on this one (neither greater nor less): Less is a strict weak order", "facts on the back edge: "+strings.Join(facts.Render(fs), " ; "))
+			}
+		}
+		c.Check(n >= 1, "loops-over-items", nil, f, "Less iterates the order-by items", "")
+	})
+
 	c.Rule("GUARD", btcT+".tryClose", func() {
 		isClose := func(p *eng.Prog, in ssa.Instruction) bool {
 			cc, ok := in.(*ssa.Call)
